@@ -241,7 +241,8 @@ def _store_array(
             target,
             shape=source.shape,
             dtype=source.dtype,
-            chunks=source.chunksize,
+            # a zero-size source has chunks of size 0, which is not a valid Zarr chunk size
+            chunks=tuple(max(c, 1) for c in source.chunksize),
             path=path,
         )
     identity = lambda a: a
